@@ -46,8 +46,11 @@ class World:
         return Sym(Poly.atom(f"slot({p!r})"))
 
     def h_allocate(self, I, args, kwargs):
-        size = args[0]
-        buf = kwargs.get("buffer", args[2] if len(args) > 2 else None)
+        size, _ctx, buf, _off = (list(args) + [None] * 4)[:4]
+        names = ["size", "context", "buffer", "offset"]
+        vals = {nm: v for nm, v in zip(names, args)}
+        vals.update({k: v for k, v in kwargs.items() if k in names})
+        size, buf = vals.get("size"), vals.get("buffer")
         n = sum(1 for e in I.effects if e.kind == "alloc")
         pos = self.alloc_pos if n == 0 else Sym(Poly.atom(f"off{n}"))
         I.effects.append(Effect("alloc", size=size, pos=pos, buf=(buf if isinstance(buf, Obj) else self.buffer)))
